@@ -81,7 +81,14 @@ def do_run(sd, seeds, tier, confirm_only, baseline=False):
             for f in files:
                 if f.startswith("new-"):
                     os.remove(os.path.join(root, f))
-    json.dump(res, open(os.path.join(sd, "result.json"), "w"), indent=1)
+    rp = os.path.join(sd, "result.json")
+    if os.path.exists(rp):          # keep what earlier evaluations established (baseline run, runs before a check was strengthened)
+        old = json.load(open(rp))
+        if "baseline_with_patch" in old and "baseline_with_patch" not in res:
+            res["baseline_with_patch"] = old["baseline_with_patch"]
+        res["earlier_evaluations"] = old.pop("earlier_evaluations", []) + [
+            {k: old.get(k) for k in ("checked_at", "repo_head", "runs", "caught") if k in old}]
+    json.dump(res, open(rp, "w"), indent=1)
     return res
 
 
